@@ -281,7 +281,14 @@ impl AsmParser {
             }
         };
 
-        debug_assert!(self.toks.next().is_none(), "expected end of line");
+        // Exactly one instruction: surplus tokens are an error, not something to ignore
+        if let Some(extra) = self.toks.next() {
+            return Err(error::parse_generic_unexpected(
+                self.src,
+                "end of line",
+                extra,
+            ));
+        }
 
         Ok(stmt)
     }
